@@ -8,6 +8,42 @@
 //!
 //! Output: `FAIL --prop <name> --seed <s> --run <k> --steps <S>` / `REASON <kind>: <text>` /
 //! indented trace lines, or `MONITOR-OK runs=R calls=N`.
+//!
+//! REASON kinds per `--prop` (`all` = every one of them):
+//! * no_panic (C20): `panic:<message> @ <file>:<line> [<source token>]`, `step-not-rejected`,
+//!   `rejected-step-changed-state`
+//! * election_safety (C02): `two-leaders`
+//! * sm_safety (C01): `divergent-commit`, `self-contradiction`
+//! * leader_completeness (C03): `leader-incomplete`, `vote-restriction`
+//! * vote_restriction (C03): `vote-restriction`
+//! * commit_rule (C04): `commit-old-term`, `commit-without-quorum`, `follower-commit-ahead`
+//! * log_matching (C05): `log-mismatch`, `leader-log-shrunk`, `leader-log-rewrite`, `commit-regress`,
+//!   `committed-entry-changed`, `committed-entry-lost`
+//! * persist_before_send (C06): `unpersisted-release`, `double-vote`, `term-regress`, `vote-changed`,
+//!   `restart-state`, `restart-behind-promise`
+//! * ready_contract (C07): `apply-gap`, `apply-duplicate`, `apply-altered`, `apply-unpersisted`,
+//!   `apply-uncommitted`, `apply-with-snapshot`, `snapshot-behind-applied`, `persist-handout-mismatch`,
+//!   `persist-duplicate`, `hs-handout`, `must-sync-missing`, `has-ready-mismatch`, `has-ready-false-negative`
+//! * read_index (C08): `stale-read`, `read-wrong-node`
+//! * conf_change (C09): `two-pending-cc`, `inherited-pending-cc` (only with --strict, otherwise a NOTE),
+//!   `campaign-with-pending-cc`, `non-voter-campaign`, `nonvoter-campaign-by-api` (only with
+//!   --learner-campaign), `promotable-mismatch`, `conf-divergence`, `conf-return-mismatch`,
+//!   `conf-changed-by-failed-apply`, `conf-changed-outside-apply`
+//! * progress (C10): `stuck`, `stuck-no-leader`, `stuck-request-snapshot`, `stuck-nonvoter-higher-term`
+//! * flow_control (C13): `append-anchor`, `append-not-contiguous`, `append-not-own-log`,
+//!   `append-commit-ahead`, `append-oversize`, `heartbeat-commit`, `inflight-overflow`, `inflight-miscount`,
+//!   `append-during-snapshot`, `probe-burst`, `append-while-probe-paused`, `uncommitted-overflow`
+//! * snapshot (C15): `snapshot-behind-commit`, `snapshot-non-member`, `snapshot-needless-install`,
+//!   `snapshot-install-state`, `snapshot-ignored-but-changed`, `snapshot-ignored-but-commit-moved`,
+//!   `snapshot-to-unknown`, `snapshot-unneeded`, `snapshot-progress-state`, `snapshot-uncommitted`,
+//!   `snapshot-resume`
+//! * prevote (C16): `prevote-changed-state`, `term-raised-without-prevote-quorum`, `leader-disrupted`,
+//!   `majority-term-changed` (the last two in the dedicated scenario: odd runs of `--prop prevote`,
+//!   every fifth run of `--prop all`)
+//! * transfer (C17): `timeout-now-premature`, `proposal-during-transfer`, `transfer-not-abandoned`,
+//!   `transfer-to-non-voter`, `transfer-to-self`
+//! Output also carries `NOTE <n> <text>` (non-failing observations), `IGNORED <n> <substring>` and
+//! `COVER <n> <check>` (how often a check was exercised) lines after MONITOR-OK.
 use crate::node::*;
 use crate::sim::*;
 use crate::util::*;
